@@ -1194,11 +1194,14 @@ class Gen:
                     [S("return", e=E("bin", t, op="Pow", a=E("var", t, name="a0", id=0), b=E("const", t, v=e_)))], True)
             root = 1
             if e_ >= 1:
-                root = int(round(hi ** (1.0 / e_))) if hi < 2 ** 60 else 1 << (hi.bit_length() // e_)
-                while root ** e_ > hi:
-                    root -= 1
-                while (root + 1) ** e_ <= hi:
-                    root += 1
+                a_, b_ = 0, hi          # largest root with root ** e_ <= hi (binary search)
+                while a_ < b_:
+                    mid = (a_ + b_ + 1) // 2
+                    if mid ** e_ <= hi:
+                        a_ = mid
+                    else:
+                        b_ = mid - 1
+                root = a_
             xs = [0, 1, 2, root, root + 1, root - 1, hi] + ([-1, -2, -root, -root - 1, -root + 1, lo] if lo < 0 else [])
             f.probe_calls = [[min(max(x, lo), hi) % W] for x in r.sample(xs, min(6, len(xs)))]
         elif kind == "pow_base":
